@@ -12,3 +12,6 @@ func waitWake(wait chan struct{}) { <-wait }
 
 // RaceBuild reports whether the binary was built with the race detector.
 const RaceBuild = false
+
+// Invisible runs f (see race_on.go).
+func Invisible(f func()) { f() }
